@@ -68,6 +68,7 @@ type Case struct {
 	Seed   int64          `json:"seed"` // sub-seed that regenerates this case
 	Policy string         `json:"policy,omitempty"`
 	Deflt  string         `json:"default,omitempty"`
+	Opt    Opt            `json:"opt"`
 	Az     *AzTab         `json:"az,omitempty"`
 	In     T              `json:"in,omitempty"`
 	Out    T              `json:"out,omitempty"`
@@ -76,6 +77,7 @@ type Case struct {
 	Panic  string         `json:"panic,omitempty"`
 	Res    *ResolveCase   `json:"res,omitempty"`
 	Exp    *ExpCase       `json:"exp,omitempty"`
+	Ep     *EndpointCase  `json:"ep,omitempty"`
 }
 
 func main() {
@@ -123,6 +125,7 @@ func main() {
 	genFilterCases(rng, *tier, emit)
 	genExpiredCases(rng, *tier, emit)
 	genResolveCases(rng, *tier, emit)
+	genEndpointCases(rng, *tier, emit)
 }
 
 func doReplay(path string) {
@@ -139,6 +142,7 @@ func doReplay(path string) {
 		Seed   int64  `json:"seed"`
 		Policy string `json:"policy"`
 		Deflt  string `json:"default"`
+		Opt    Opt    `json:"opt"`
 	}
 	if err := json.Unmarshal(b, &r); err != nil {
 		panic(err)
@@ -153,7 +157,7 @@ func doReplay(path string) {
 		}
 		// map-iterating branches depend on the runtime's iteration order: try several times
 		for i := 0; i < 16; i++ {
-			c := runFilterCase(rt, r.Mode, r.N, r.Mask, r.Seed, r.Policy, r.Deflt)
+			c := runFilterCase(rt, r.Mode, r.N, r.Mask, r.Seed, r.Policy, r.Deflt, r.Opt)
 			if c.Oracle != "" || i == 15 {
 				_ = enc.Encode(c)
 				if c.Oracle != "" {
@@ -168,6 +172,26 @@ func doReplay(path string) {
 		_ = enc.Encode(c)
 		if c.Oracle != "" {
 			fmt.Println("ORACLE FAILURE:", c.Oracle)
+			os.Exit(1)
+		}
+		fmt.Println("oracle: ok")
+	case "endpoint":
+		var e struct {
+			Ep EndpointCase `json:"ep"`
+		}
+		_ = json.Unmarshal(b, &e)
+		rng := rand.New(rand.NewSource(1))
+		failed := false
+		genEndpointCases(rng, "quick", func(c *Case) {
+			if c.Ep.Scenario == e.Ep.Scenario && c.Ep.Endpoint == e.Ep.Endpoint {
+				_ = enc.Encode(c)
+				if c.Oracle != "" {
+					fmt.Println("ORACLE FAILURE:", c.Oracle)
+					failed = true
+				}
+			}
+		})
+		if failed {
 			os.Exit(1)
 		}
 		fmt.Println("oracle: ok")
